@@ -15,7 +15,7 @@ from .values import EngineSignal, Unsupported, SBool, SInt
 from .explore import explore, PathLimit
 from .interp import Interp
 from .state import StateGuard
-from .unit import REGISTRY, Args, SymExec, Outcome, run_native, model_inputs
+from .unit import REGISTRY, Args, SymExec, Outcome, Undecided, run_native, model_inputs
 
 CVC5 = "/usr/bin/cvc5"
 
@@ -169,6 +169,11 @@ def verify_case(unit_name, case, prop=None, tier="quick", opts=None):
         all_proved = True
         for p, n, c in rec["clauses"]:
             name = "%s/%s[%s]/%s" % (p, unit_name, res["case_id"], n)
+            if isinstance(c, Undecided):
+                res["undecided"].append(dict(name=name, reason="contract: " + c.reason))
+                res["obligations"].append(dict(name=name, prop=p, path=pi, verdict="unknown", backend="contract", time=0, outcome=out.describe()))
+                all_proved = False
+                continue
             d = discharge(ctx.pc, c, timeout_ms, both=opts.get("both", False))
             res["solver_time"] += d["time"]
             ob = dict(name=name, prop=p, path=pi, verdict=d["verdict"], backend=d["backend"], time=round(d["time"], 4),
